@@ -21,6 +21,7 @@ RULE = ("history cases execute 5-12 calls in ONE worker process: propka.run.sing
         "descriptors."
         " Inputs include MODEL files in which several ionizable residues exist in later models only; main-mode calls also carry -i and -p.")
 RULE = RULE + " Round 8: parameter files of a history are one file per content, one path rewritten between the calls, or a bare name resolved in the call's working directory."
+RULE = RULE + ' Rounds 10-12: the shipped parameter file under its bare name; nucleotide inputs followed by ligands with groups of the same types, half of their calls through main with several files; series of ligand complexes on one protein and site.'
 ASSUMPTIONS = ["pseudo-addresses are 16-aligned like CPython object addresses; unaligned values would create set "
                "orders that real addresses cannot produce"]
 TIMEOUT = {"quick": 3000, "thorough": 14400}
